@@ -91,6 +91,9 @@ def run_shards(binary, chk, tier, seed, replay=None):
     nshards = 1 if replay else cfg["shards"]
     tmp = tempfile.mkdtemp(prefix="verif-%s-" % chk["id"])
     faildir = os.path.join(FAILS, chk["id"])
+    if os.environ.get("VERIF_REPO"):
+        # runs against a modified scratch copy (sensitivity runs) keep their shrunk cases out of /verif
+        faildir = os.path.join("/tmp/verif-mutant-failures", chk["id"])
     os.makedirs(faildir, exist_ok=True)
     known = merged_known(tmp)
     procs = []
